@@ -262,14 +262,28 @@ def rule_undodual(ctx):
         init_ok = len(init) == 1 and norm(init[0]) == f'len({uv})'
         slices = [s for s in walk_own(bin_) if isinstance(s, ast.Assign) and isinstance(s.value, ast.Subscript)
                   and norm(s.value.value) == uv]
-        sl_ok = len(slices) == 1 and isinstance(slices[0].value.slice, ast.Slice) and norm(slices[0].value.slice.lower) == cur
+        # the slice taken is [cursor after the decrement, that + entry width): decided on the path through one iteration with
+        # locals expressed in the cursor value at the start of the iteration (so `undo_info[n:n + w]` after `n -= w` and
+        # `end = n; n -= w; undo_info[n:end]` read the same)
+        sl_ok = len(slices) == 1 and isinstance(slices[0].value.slice, ast.Slice) and slices[0].value.slice.lower is not None \
+            and slices[0].value.slice.upper is not None
         if sl_ok:
-            # upper bound = cursor + entry width, compared as linear forms (the width may be a name, a sum, a constant)
-            try:
-                sl_ok = slices[0].value.slice.upper is not None and q.lin_eq(
-                    q.lin_sub(q.linear(ctx, bak, slices[0].value.slice.upper), q.linear(ctx, bak, decs[0].value)), {cur: 1, '': 0})
-            except q.NotLinear:
-                sl_ok = False
+            from .. import paths as P
+            sl_ok = False
+            for pth in P.paths(bin_.body):
+                if not pth.passes(slices[0]):
+                    continue
+                env_ = next((e_ for st_, e_ in pth.events if st_ is slices[0]), None)
+                # the slice statement binds a plain local: take the environment from the path's bindings at that point
+                lo = P.subst(slices[0].value.slice.lower, _env_at(pth, slices[0]))
+                up = P.subst(slices[0].value.slice.upper, _env_at(pth, slices[0]))
+                try:
+                    w_ = q.linear(ctx, bak, decs[0].value)
+                    lo_l, up_l = q.linear(ctx, None, lo), q.linear(ctx, None, up)
+                    sl_ok = q.lin_eq(q.lin_sub(up_l, lo_l), w_) and q.lin_eq(q.lin_sub({cur: 1, '': 0}, lo_l), w_)
+                except q.NotLinear:
+                    sl_ok = False
+                break
         puts = calls_canon(ctx, bak, bin_, 'self.utxo_cache.__setitem__')
         put_ok = sl_ok and len(puts) == 1 and norm(puts[0].args[1]) == norm(slices[0].targets[0])
         order_ok = sl_ok and decs[0].lineno < slices[0].lineno
@@ -652,6 +666,21 @@ def rule_range(ctx):
               'the hashes to back out are the indexed hashes of exactly [start, start+count)',
               '_reorg_hashes does not read exactly the computed range', loc=ctx.loc(g, g.node))
     return n + 1
+
+
+def _env_at(pth, stmt):
+    """bindings of plain locals in force when `stmt` runs on the path (re-played from the statements passed before it)"""
+    from .. import paths as P
+    env = {}
+    for st in pth.passed:
+        if st is stmt:
+            break
+        if isinstance(st, ast.Assign) and len(st.targets) == 1 and isinstance(st.targets[0], ast.Name):
+            env[st.targets[0].id] = P.subst(st.value, env)
+        elif isinstance(st, ast.AugAssign) and isinstance(st.target, ast.Name):
+            cur_ = env.get(st.target.id, ast.Name(id=st.target.id, ctx=ast.Load()))
+            env[st.target.id] = ast.BinOp(left=cur_, op=st.op, right=P.subst(st.value, env))
+    return env
 
 
 def rule_reorg_flush(ctx, rule='C03.REORGFLUSH'):
